@@ -19,6 +19,14 @@ def main(tier):
         n, es = c19.random_graph(rnd, rnd.randint(2, 14 if quick else 25))
         sizes = [(rnd.choice([10, 20, 30, 40]), rnd.choice([10, 20, 30])) for _ in range(n)]
         cases.append((n, sizes, [(rnd.randint(0, 300), rnd.randint(0, 300)) for _ in range(n)], es, rnd.randint(0, 127)))
+    # trees with isomorphic sibling subtrees and narrow/wide nodes mixed (the whole-graph-is-a-tree path returns the symmetric layout as it is)
+    for _ in range(250 if quick else 2500):
+        n, es = c19.bushy_tree(rnd)
+        if not 2 <= n <= (16 if quick else 25):
+            continue
+        ws = rnd.choice([[30, 200], [20, 40, 120], [30, 30, 30, 160], [10, 20, 30, 40]])
+        sizes = [(rnd.choice(ws), rnd.choice([20, 30])) for _ in range(n)]
+        cases.append((n, sizes, [(rnd.randint(0, 300), rnd.randint(0, 300)) for _ in range(n)], es, rnd.randint(0, 127)))
     cf = os.path.join(d, 'cases.txt')
     with open(cf, 'w') as f:
         for n, sizes, pos, es, opts in cases:
